@@ -501,6 +501,26 @@ func TestC05(t *testing.T) {
 			}, "scenario:restart-with-old-store")
 		}
 	}
+	// scenario tier: the hand-over range of a join wraps around identifier 0, per backend of the
+	// node that hands over
+	for b, name := range []string{"memory", "aof", "sqlite"} {
+		for _, lowest := range []bool{true, false} {
+			p := handOverAcrossZero(t, b, lowest)
+			where := map[bool]string{true: "lowest", false: "highest"}[lowest]
+			switch {
+			case p == "":
+				n := name
+				rec.Case(true, "scenario:hand-over-across-zero:"+n+":"+where, func() any {
+					return map[string]any{"scenario": "ring {4<<44, 9<<44} with 120 keys; a node joins and becomes the " + where + " id of the ring", "backend": n}
+				}, "scenario:hand-over-across-zero")
+			case len(p) > 13 && p[:13] == "precondition:":
+				rec.Inconclusive("scenario-precondition")
+				t.Logf("hand-over-across-zero scenario (%s, %s): %s", name, where, p)
+			default:
+				rec.Fail(t, "key-held-outside-ownership-range", map[string]any{"schedule": "ring {4<<44, 9<<44} (" + name + " stores), 120 keys; a node joins and becomes the " + where + " id of the ring", "problem": p}, "%s", p)
+			}
+		}
+	}
 	backs := ev.Pick([]int{0, 0, 0, 1, 2, 2}, []int{0, 0, 1, 2})
 	ev.RapidCheck(t, 30, 640, func(t *rapid.T) {
 		p := genDataPlan(ev.Pick(4, 6), backs).Draw(t, "plan")
